@@ -127,12 +127,24 @@ def r_axis_binding(rule, root=None):
     if len(ms) != 1:
         rule.lost("match var {Var::X ..} in ShapeTracingEval::eval_raw")
     else:
+        # the match either stores in every arm, or yields the value that one common statement stores
+        yields = False
+        for l_ in A.find(t["body"], "Let"):
+            if l_.get("init") is not None and A.strip(l_["init"]) is ms[0] and A.binding_name(l_["pat"]):
+                nm_ = A.binding_name(l_["pat"])
+                yields = any(str(A.ftxt(a_["left"])) == "self.scratch[index]" and A.ident(A.strip(a_["right"])) == nm_ for a_ in A.find(t["body"], "Assign"))
+        for a_ in A.find(t["body"], "Assign"):
+            if str(A.ftxt(a_["left"])) == "self.scratch[index]" and A.strip(a_["right"]) is ms[0]:
+                yields = True
         for arm in ms[0]["arms"]:
             pt = A.ftxt(arm["pat"])
             body = A.strip(arm["body"])
             if pt in ("Var::X", "Var::Y", "Var::Z"):
                 want = xyz["XYZ".index(pt[-1])]
-                ok = body.get("k") == "Assign" and A.ftxt(body["left"]) == "self.scratch[index]" and A.ident(A.strip(body["right"])) == want
+                if yields:
+                    ok = A.ident(A.strip(A.unblock(body))) == want
+                else:
+                    ok = body.get("k") == "Assign" and A.ftxt(body["left"]) == "self.scratch[index]" and A.ident(A.strip(body["right"])) == want
                 if ok:
                     rule.ok("tracing: %s bound to `%s`" % (pt, want), file=SHAPE, line=arm["ln"])
                 else:
@@ -140,7 +152,7 @@ def r_axis_binding(rule, root=None):
             elif pt.startswith("Var::V("):
                 vn = pt[len("Var::V("):-1]
                 tt = A.ftxt(body)
-                ok = "vars.get(%s)" % vn in tt and "MissingVar{var:%s}" % vn in tt and "self.scratch[index]=" in tt and ("return" in tt or ")?" in tt)
+                ok = "vars.get(%s)" % vn in tt and "MissingVar{var:%s}" % vn in tt and ("self.scratch[index]=" in tt or yields) and ("return" in tt or ")?" in tt)
                 if ok:
                     rule.ok("tracing: Var::V looked up by its own id; missing -> MissingVar", file=SHAPE, line=arm["ln"])
                 else:
@@ -233,12 +245,21 @@ def r_axis_binding(rule, root=None):
         ln_ = A.lane_bindings(bs_[-1][2]) if bs_ else None
         if ln_ and ln_[0]:
             lane_i = ln_[0]
+    # `let [xs, ys, zs] = axes;` names the elements of the holder array
+    alias = {}
+    for l_ in A.find(b["body"], "Let"):
+        p_ = l_["pat"]["pat"] if l_["pat"].get("k") == "PType" else l_["pat"]
+        if l_.get("init") is not None and p_.get("k") in ("PSlice", "PArray") and A.ident(A.strip(l_["init"])):
+            for k_, e_ in enumerate(p_.get("elems", [])):
+                if A.binding_name(e_):
+                    alias[A.binding_name(e_)] = "%s[%d]" % (A.ident(A.strip(l_["init"])), k_)
     for i in A.find(b["body"], "If"):
         c = A.strip(i["cond"])
         if c.get("k") != "LetCond":
             continue
         v_ = A.some_binding(c["pat"])
         src = str(A.ftxt(A.strip(c["e"])))
+        src = alias.get(src, src)
         ks = [k_ for k_, h_ in holders.items() if h_ == src]
         if v_ and len(ks) == 1:
             tt = A.ftxt(i["then"])
@@ -263,13 +284,25 @@ def r_arg_checks(rule, root=None):
     fn = A.find_fn(VAR, "check_tracing_arguments", self_ty="VarMap", root=root)
     ifs = list(A.find(fn["body"], "If"))
     c = A.ftxt(A.strip(ifs[0]["cond"])) if ifs else ""
-    def _err_exactly_when_short(f_, err_prefix):
+    def _resolve_lets(f_, text):
+        """a condition with the function's simple `let name = <call-free-of-side-effects>;` names spelled out"""
+        for l_ in A.find(f_["body"], "Let"):
+            n_ = A.binding_name(l_["pat"])
+            if n_ and l_.get("init") is not None and not (l_["pat"].get("mut")):
+                it = str(A.ftxt(l_["init"]))
+                if re.fullmatch(r"[\w.]+\(\)|[\w.]+", it):
+                    text = re.sub(r"(?<![\w.])%s(?![\w(])" % re.escape(n_), it, text)
+        return text
+
+    def _err_exactly_when_short(f_, err_prefix, only_err=False):
         """every result of the check: the error exactly under vars.len() < self.len(), Ok(()) otherwise"""
         res = A.result_cases(f_["body"])
         errs = [(v_, cs_) for v_, cs_ in res if str(A.ftxt(v_)).startswith(err_prefix)]
         oks = [(v_, cs_) for v_, cs_ in res if str(A.ftxt(v_)) == "Ok(())"]
-        return (len(errs) == 1 and [A.canon_int_text(x) for x in errs[0][1]] == ["(vars.len()<self.len())"]
-                and len(oks) == 1 and [A.canon_int_text(x) for x in oks[0][1]] == ["(self.len()<=vars.len())"] and len(res) == 2)
+        e_ok = len(errs) == 1 and [A.canon_int_text(_resolve_lets(f_, str(x))) for x in errs[0][1]] == ["(vars.len()<self.len())"]
+        if only_err:
+            return e_ok
+        return (e_ok and len(oks) == 1 and [A.canon_int_text(_resolve_lets(f_, str(x))) for x in oks[0][1]] == ["(self.len()<=vars.len())"] and len(res) == 2)
 
     if (c == "(vars.len()<self.len())" and "Err(TracingArgError::BadVarSlice" in A.ftxt(ifs[0]["then"]) and "Ok(())" in A.unparse(ifs[0].get("else"))) or _err_exactly_when_short(fn, "Err(TracingArgError::BadVarSlice"):
         rule.ok("check_tracing_arguments: Err iff fewer slots than variables", file=VAR, line=fn["ln"])
@@ -278,7 +311,7 @@ def r_arg_checks(rule, root=None):
     fn = A.find_fn(VAR, "check_bulk_arguments", self_ty="VarMap", root=root)
     ifs = list(A.find(fn["body"], "If"))
     c = A.ftxt(A.strip(ifs[0]["cond"])) if ifs else ""
-    if c == "(vars.len()<self.len())" and "Err(BulkArgError::BadVarSlice" in A.ftxt(ifs[0]["then"]):
+    if (c == "(vars.len()<self.len())" and "Err(BulkArgError::BadVarSlice" in A.ftxt(ifs[0]["then"])) or _err_exactly_when_short(fn, "Err(BulkArgError::BadVarSlice", only_err=True):
         rule.ok("check_bulk_arguments: Err iff fewer slices than variables", file=VAR, line=fn["ln"])
     else:
         rule.bad("bulk-args|count", "check_bulk_arguments must return BadVarSlice exactly when vars.len() < self.len()", A.where(fn))
